@@ -113,7 +113,7 @@ class Execution:
     """One controlled execution of ``n`` thread bodies under a schedule prefix."""
 
     def __init__(self, n: int, prefix: Sequence[Tuple[int, Any]], files: Sequence[str], *, strict: bool = True,
-                 timeout: float = 30.0) -> None:
+                 timeout: float = 600.0) -> None:
         self.n = n
         self.prefix = list(prefix)
         self.files = frozenset(os.path.abspath(f) for f in files)
